@@ -401,6 +401,52 @@ func c07one(text string, g *c07gen) {
 		}
 		stat("C07", "history-checked")
 	}
+	// the shallow decode (values kept as YAML nodes) names its entries as the full decode does - merges expanded,
+	// alias keys resolved, scalar keys canonicalised; checked on every mapping node of the document
+	if n.Kind == yaml.DocumentNode && len(n.Content) == 1 {
+		var maps []*yaml.Node
+		var collect func(nd *yaml.Node, depth int)
+		collect = func(nd *yaml.Node, depth int) {
+			if nd == nil || depth > 6 || len(maps) >= 16 {
+				return
+			}
+			if nd.Kind == yaml.MappingNode {
+				maps = append(maps, nd)
+			}
+			if nd.Kind != yaml.AliasNode {
+				for _, ch := range nd.Content {
+					collect(ch, depth+1)
+				}
+			}
+		}
+		collect(n.Content[0], 0)
+		for _, mn := range maps {
+			var deep any
+			var derr, serr error
+			shallow := ordered.NewMap[string, *yaml.Node](0)
+			func() {
+				defer func() {
+					if x := recover(); x != nil {
+						serr = fmt.Errorf("panic: %v", x)
+					}
+				}()
+				deep, derr = ordered.DecodeYAML(mn)
+				serr = mn.Decode(shallow)
+			}()
+			dm, ok := deep.(*ordered.MapSA)
+			if derr != nil || !ok {
+				continue
+			}
+			var deepKeys, shallowKeys []string
+			dm.Range(func(k string, _ any) error { deepKeys = append(deepKeys, k); return nil })
+			shallow.Range(func(k string, _ *yaml.Node) error { shallowKeys = append(shallowKeys, k); return nil })
+			if serr != nil || fmt.Sprintf("%q", deepKeys) != fmt.Sprintf("%q", shallowKeys) {
+				oracleFail("C07", "shallow-decode-keys", c, fmt.Sprintf("the mapping at line %d has the keys %q when decoded fully and %q when decoded into an ordered map of YAML nodes (err %v)", mn.Line, deepKeys, shallowKeys, serr))
+				return
+			}
+			stat("C07", "shallow-decode-keys")
+		}
+	}
 	var obs sx.S = sx.L(sx.A("err"))
 	if r.err == nil {
 		if sharedPointers(r.v) {
